@@ -44,5 +44,9 @@ verus! {
 
 //%slice optimiser.rs shake_needles fn shake_1 ;; after:for ((field, cast, insensitive), searches) in needles { ;; aho.push(expression); +1 ;; fn shake_needles(field: String, cast: bool, insensitive: bool, searches: Vec<(MatchType, String)>, contains: &mut Vec<Expression>, ends_with: &mut Vec<Expression>, exact: &mut Vec<Expression>, starts_with: &mut Vec<Expression>, aho: &mut Vec<Expression>) ;; -
 
+//%slice parser.rs single_pattern fn parse_mapping ;; match identifier.pattern { ;; block ;; fn single_pattern(identifier: Identifier, e: Expression, f: String, cast: bool) -> Expression ;; let r0 = @; r0
+
+//%slice parser.rs classify_member fn parse_mapping ;; nth=2:match identifier.pattern { ;; block ;; fn classify_member(identifier: Identifier, e: Expression, f: String, cast: bool, exact: &mut Vec<Identifier>, starts_with: &mut Vec<Identifier>, ends_with: &mut Vec<Identifier>, contains: &mut Vec<Identifier>, regex: &mut Vec<Identifier>, rest: &mut Vec<Expression>, mut string: bool, mut number: bool) -> (bool, bool) ;; (string, number)
+
 } // verus!
 fn main() {}
